@@ -16,7 +16,7 @@ def _skew(v):
 
 def _setup(mutate=None):
     from .. import symreal as S, enga
-    S.new_ctx([('T', ORD)])
+    S.new_ctx([('T', ORD + 1)])     # one spare order: the increment branch divides interval lengths (series without constant term)
     m = enga.install()
     if mutate:
         mutate(m)
@@ -34,8 +34,10 @@ def _oracle(w_s, f_s):
     return Cs, integ(np.dot(Cs, f_s))
 
 
-def section_accuracy(rep, degree, mutate=None):
-    """degree 1: linear signals (the property's exact statement); degree 2: generic quadratic"""
+def section_accuracy(rep, degree, mutate=None, irregular=False):
+    """degree 1: linear signals (the property's exact statement); degree 2: generic quadratic.
+    irregular: three samples at -mu T, 0, T with a symbolic ratio mu of the preceding interval to
+    the examined one (row 1 of the result, interval [0, T]); otherwise two samples at 0, T."""
     import numpy as np
     import pandas as pd
     from .. import symreal as S, enga
@@ -56,21 +58,42 @@ def section_accuracy(rep, degree, mutate=None):
     w_s, f_s = w(Tt), f(Tt)
     Cs, dv_exact = _oracle(w_s, f_s)
     integ = np.vectorize(lambda x: J(x).integ(0), otypes=[object])
+    W = lambda t: O([a[i] * t + b[i] * t * t * Fr(1, 2) + c[i] * t * t * t * Fr(1, 3) for i in range(3)])
+    Fi = lambda t: O([d[i] * t + e[i] * t * t * Fr(1, 2) + g[i] * t * t * t * Fr(1, 3) for i in range(3)])
     obls = []
+    if irregular:
+        import z3
+        mu = S.var('mu')
+        S.C.dom += [z3.Real('mu') >= Fr(1, 5), z3.Real('mu') <= 5]
     for stype in ('rate', 'increment'):
-        if stype == 'rate':
-            rows = [list(w(J(0))) + list(f(J(0))), list(w_s) + list(f_s)]
+        if irregular:
+            t0 = -(mu * Tt)
+            stamps = [t0, J(0), Tt]
+            if stype == 'rate':
+                rows = [list(w(t0)) + list(f(t0)), list(w(J(0))) + list(f(J(0))), list(w_s) + list(f_s)]
+            else:
+                # increments over [-2 mu T, -mu T] (its own length is irrelevant), [-mu T, 0], [0, T]
+                tm = t0 * 2
+                rows = [list(W(t0) - W(tm)) + list(Fi(t0) - Fi(tm)), list(-W(t0)) + list(-Fi(t0)), list(W(Tt)) + list(Fi(Tt))]
+            row = 1
         else:
-            # increment sensors report the integral over the preceding interval: [-T,0] and [0,T]
-            g1, f1 = integ(w_s), integ(f_s)
-            g0, f0 = integ(w(-Tt)), integ(f(-Tt))
-            rows = [list(g0) + list(f0), list(g1) + list(f1)]
-        imu = pd.DataFrame(rows, columns=GYRO_COLS + ACCEL_COLS, index=pd.Index([J(0), Tt], dtype=object), dtype=object)
+            stamps = [J(0), Tt]
+            row = 0
+            if stype == 'rate':
+                rows = [list(w(J(0))) + list(f(J(0))), list(w_s) + list(f_s)]
+            else:
+                # increment sensors report the integral over the preceding interval: [-T,0] and [0,T]
+                g1, f1 = integ(w_s), integ(f_s)
+                g0, f0 = integ(w(-Tt)), integ(f(-Tt))
+                rows = [list(g0) + list(f0), list(g1) + list(f1)]
+        imu = pd.DataFrame(rows, columns=GYRO_COLS + ACCEL_COLS, index=pd.Index(stamps, dtype=object), dtype=object)
         inc = SD.compute_increments_from_imu(imu, stype)
-        theta = inc[THETA_COLS].values[0]
-        dv = inc[DV_COLS].values[0]
+        theta = inc[THETA_COLS].values[row]
+        dv = inc[DV_COLS].values[row]
         R = _rotvec_matrix(O(list(theta)))
-        meta = {'check': 'accuracy', 'params': {'type': stype, 'degree': degree}}
+        meta = {'check': 'accuracy', 'params': {'type': stype, 'degree': degree, 'irregular': bool(irregular)}}
+        if irregular:
+            stype = stype + ' (irregular stamps, preceding interval mu T)'
         if degree == 1:
             for k in range(ORD + 1):
                 for i in range(3):
@@ -88,7 +111,7 @@ def section_accuracy(rep, degree, mutate=None):
         else:
             # generic quadratic signals: local error O(T^3) for rate samples (trapezoid of the
             # samples), O(T^4) for increment samples (their integrals are exact)
-            kmax = 2 if stype == 'rate' else 3
+            kmax = 2 if (stype.startswith('rate') or irregular) else 3
             for k in range(kmax + 1):
                 for i in range(3):
                     for j in range(3):
@@ -135,10 +158,12 @@ def section_table(rep, mutate=None):
 
 CANARIES = [
     ('coning coefficient', 1, ('SD', 'compute_increments_from_imu', 'coning = np.cross(a_gyro, b_gyro) * dt ** 2 / 12', 'coning = np.cross(a_gyro, b_gyro) * dt ** 2 / 6')),
-    ('increment-type coning sign', 1, ('SD', 'compute_increments_from_imu', 'coning = np.cross(gyro[:-1], gyro[1:]) / 12', 'coning = -np.cross(gyro[:-1], gyro[1:]) / 12')),
-    ('sculling drops one term', 1, ('SD', 'compute_increments_from_imu', "sculling = (np.cross(gyro[:-1], accel[1:]) +\n                    np.cross(accel[:-1], gyro[1:])) / 12", "sculling = (np.cross(gyro[:-1], accel[1:])) / 12")),
+    ('increment-type coning sign', 1, ('SD', 'compute_increments_from_imu', 'coning = np.cross(gyro[:-1], gyro[1:]) * scale', 'coning = -np.cross(gyro[:-1], gyro[1:]) * scale')),
+    ('sculling drops one term', 1, ('SD', 'compute_increments_from_imu', "sculling = (np.cross(gyro[:-1], accel[1:]) +\n                    np.cross(accel[:-1], gyro[1:])) * scale", "sculling = (np.cross(gyro[:-1], accel[1:])) * scale")),
     ('rotation compensation factor', 1, ('SD', 'compute_increments_from_imu', '0.5 * np.cross(gyro_increment, accel_increment)', '1.0 * np.cross(gyro_increment, accel_increment)')),
     ('rate type uses end sample only', 2, ('SD', 'compute_increments_from_imu', 'gyro_increment = (a_gyro + 0.5 * b_gyro) * dt', 'gyro_increment = (a_gyro + b_gyro) * dt')),
+    ('interval ratio ignored for increment sensors (behaviour before the repair)', 'irregular', ('SD', 'compute_increments_from_imu', 'scale = 1 / (6 * ratio * (1 + ratio))', 'scale = 1 / 12 + 0 * ratio')),
+    ('rate samples scaled by the preceding interval', 'irregular', ('SD', 'compute_increments_from_imu', 'coning = np.cross(a_gyro, b_gyro) * dt ** 2 / 12', 'coning = np.cross(a_gyro, b_gyro) * dt * np.vstack((dt[:1], dt[:-1])) / 12')),
     ('rows stamped with the previous sample', 'table', ('SD', 'compute_increments_from_imu', 'index=imu.index[1:]', 'index=imu.index[:-1]')),
 ]
 
@@ -150,27 +175,34 @@ def run(run):
     for nm in 'abcdeg':
         for i in range(3):
             box['%s%d' % (nm, i)] = (-3, 3)
+    box['mu'] = (0.2, 5)
     rep = enga.AReport(run, box=box)
     run.assume('signals are polynomials in time with symbolic vector coefficients (linear: the property\'s exact statement; quadratic: generic smooth signal through second order); the interval T is a formal parameter, series through T^%d' % ORD,
                'exact attitude / velocity integral from the Peano-Baker series of C\' = C [w x] in the jet algebra (no Bortz/Savage formula)',
                'the matrix of the computed rotation vector is its exponential series (rotation vector = O(T)); exact real arithmetic',
                'sinusoidal signals at finite sampling intervals (1..160 ms) are outside: their Taylor coefficients are covered through the stated order only')
     for degree in (1, 2):
-        obls = section_accuracy(rep, degree)
-        rep.finish(rep.batch(obls), PROP)
+        for irregular in (False, True):
+            obls = section_accuracy(rep, degree, irregular=irregular)
+            rep.finish(rep.batch(obls), PROP)
     obls = section_table(rep)
     rep.finish(rep.batch(obls), PROP)
     run.witness('obligations generated', run.obligations > 100)
     validate(rep)
     for name, deg, spec in CANARIES:
         try:
-            obls = section_table(rep, _mut(spec)) if deg == 'table' else section_accuracy(rep, deg, _mut(spec))
+            if deg == 'table':
+                obls = section_table(rep, _mut(spec))
+            elif deg == 'irregular':
+                obls = section_accuracy(rep, 1, _mut(spec), irregular=True)
+            else:
+                obls = section_accuracy(rep, deg, _mut(spec))
         except common.HarnessError as e:
             run.canary(name, False, str(e))
             continue
         rep.canary(name, obls)
     enga.restore()
-    run.bounds.update({'series order': 'T^%d' % ORD, 'signals': 'linear and quadratic polynomial signals, both sensor types'})
+    run.bounds.update({'series order': 'T^%d' % ORD, 'signals': 'linear and quadratic polynomial signals, both sensor types', 'stamps': 'two samples (one interval) and three samples with a symbolic ratio mu in [0.2, 5] of the preceding interval to the examined one'})
 
 
 def validate(rep):
@@ -190,8 +222,9 @@ def validate(rep):
 
 
 # ------------------------------------------------------------------------------------------
-def _numeric(a, b, c, d, e, g, stype, T):
-    """(theta, dv) from the real function and the exact (C, dv) by fine RK4"""
+def _numeric(a, b, c, d, e, g, stype, T, mu=None):
+    """(theta, dv) from the real function and the exact (C, dv) by fine RK4; mu: ratio of the
+    preceding interval to the examined one [0, T] (three samples), None: two samples"""
     import numpy as np
     import pandas as pd
     from pyins.strapdown import compute_increments_from_imu
@@ -200,11 +233,21 @@ def _numeric(a, b, c, d, e, g, stype, T):
     f = lambda t: d + e * t + g * t * t
     W = lambda t: a * t + b * t**2 / 2 + c * t**3 / 3
     Fi = lambda t: d * t + e * t**2 / 2 + g * t**3 / 3
-    if stype == 'rate':
+    row = 0
+    if mu is not None:
+        row = 1
+        t0 = -mu * T
+        if stype == 'rate':
+            rows = [np.hstack([w(t0), f(t0)]), np.hstack([w(0), f(0)]), np.hstack([w(T), f(T)])]
+        else:
+            rows = [np.hstack([W(t0) - W(2 * t0), Fi(t0) - Fi(2 * t0)]), np.hstack([-W(t0), -Fi(t0)]), np.hstack([W(T), Fi(T)])]
+        imu = pd.DataFrame(rows, columns=GYRO_COLS + ACCEL_COLS, index=[t0, 0.0, T])
+    elif stype == 'rate':
         rows = [np.hstack([w(0), f(0)]), np.hstack([w(T), f(T)])]
+        imu = pd.DataFrame(rows, columns=GYRO_COLS + ACCEL_COLS, index=[0.0, T])
     else:
         rows = [np.hstack([-W(-T), -Fi(-T)]), np.hstack([W(T), Fi(T)])]
-    imu = pd.DataFrame(rows, columns=GYRO_COLS + ACCEL_COLS, index=[0.0, T])
+        imu = pd.DataFrame(rows, columns=GYRO_COLS + ACCEL_COLS, index=[0.0, T])
     inc = compute_increments_from_imu(imu, stype)
     sk = lambda v: np.array([[0, -v[2], v[1]], [v[2], 0, -v[0]], [-v[1], v[0], 0]])
     N = 400
@@ -220,16 +263,16 @@ def _numeric(a, b, c, d, e, g, stype, T):
         k4 = rhs(t + h, C + h * k3[0])
         C = C + h / 6 * (k1[0] + 2 * k2[0] + 2 * k3[0] + k4[0])
         dv = dv + h / 6 * (k1[1] + 2 * k2[1] + 2 * k3[1] + k4[1])
-    return inc, inc[THETA_COLS].values[0], inc[DV_COLS].values[0], C, dv
+    return inc, inc[THETA_COLS].values[row], inc[DV_COLS].values[row], C, dv
 
 
-def _check_point(a, b, c, d, e, g, stype, linear):
+def _check_point(a, b, c, d, e, g, stype, linear, mu=None):
     import numpy as np
     from scipy.spatial.transform import Rotation
     fails = []
     errs = {}
     for T in (0.04, 0.02):
-        inc, th, dv, C, dvx = _numeric(a, b, c, d, e, g, stype, T)
+        inc, th, dv, C, dvx = _numeric(a, b, c, d, e, g, stype, T, mu)
         R = Rotation.from_rotvec(th).as_matrix()
         disc = dvx - dv
         if linear:
@@ -237,13 +280,13 @@ def _check_point(a, b, c, d, e, g, stype, linear):
         errs[T] = (np.abs(R - C).max(), np.abs(disc).max())
     sc = max(1.0, np.abs(np.hstack([a, b, c, d, e, g])).max())
     # expected local orders: linear: rotation O(T^5), dv remainder O(T^4); quadratic: O(T^3)/(T^4)
-    pr, pd_ = (5, 4) if linear else ((3, 3) if stype == 'rate' else (4, 3))
+    pr, pd_ = (5, 4) if linear else ((3, 3) if (stype == 'rate' or mu is not None) else (4, 3))
     for idx, (p, what) in enumerate(((pr, 'rotation'), (pd_, 'velocity increment'))):
         e1, e2 = errs[0.04][idx], errs[0.02][idx]
         # the error must fall at the documented order when the interval is halved (errors at the
         # rounding level are exempt); and must not sit far above the natural O(T^p) size
         if e1 > 1e-11 * sc and not (e2 > 0 and e1 / e2 > 2 ** (p - 0.6)):
-            fails.append('%s %s error %.3g at T=0.04 (%.3g at 0.02, ratio %.2f) does not fall like T^%d' % (stype, what, e1, e2, e1 / max(e2, 1e-300), p))
+            fails.append('%s%s %s error %.3g at T=0.04 (%.3g at 0.02, ratio %.2f) does not fall like T^%d' % (stype, '' if mu is None else ' (preceding interval %.3g T)' % mu, what, e1, e2, e1 / max(e2, 1e-300), p))
         elif e1 > 50 * sc ** (p + 1) * 0.04 ** p:
             fails.append('%s %s error %.3g at T=0.04 far above the O(T^%d) level' % (stype, what, e1, p))
     return fails
@@ -260,6 +303,7 @@ def replay(spec):
             for st in ('rate', 'increment'):
                 bad += _check_point(a, b, z, d, e, z, st, True)
                 bad += _check_point(a, b, rng.uniform(-2, 2, 3), d, e, rng.uniform(-2, 2, 3), st, False)
+                bad += _check_point(a, b, z, d, e, z, st, True, mu=float(rng.choice([0.4, 0.7, 1.6, 3.0])))
         # repo test: constant signals
         return {'violated': bool(bad), 'detail': bad}
     pt = spec['point']
@@ -281,5 +325,10 @@ def replay(spec):
     a, b, c, d, e, g = v('a'), v('b'), v('c'), v('d'), v('e'), v('g')
     if linear:
         c = g = np.zeros(3)
-    fails = _check_point(a, b, c, d, e, g, pr.get('type', 'rate'), linear)
+    mu = None
+    if pr.get('irregular'):
+        mu = pt.get('mu', 0.5)
+        if abs(mu - 1) < 0.05:
+            mu = 0.5        # at equal intervals the irregular table is the regular one
+    fails = _check_point(a, b, c, d, e, g, pr.get('type', 'rate'), linear, mu)
     return {'violated': bool(fails), 'detail': fails}
